@@ -57,6 +57,7 @@ class FunctionSpec:
     # An out-of-range subscript / pop from an empty list then ends the path instead of being a safety obligation.
     may_raise: Set[str] = field(default_factory=set)
     keep_own_safety: bool = False      # with may_raise: only callees may raise; this function's own subscripts / pops stay safety obligations
+    class_invariants: bool = False     # use the declared class invariants (schema.CLASS_INVARIANTS) as background axioms in this verification
     verify_only: bool = False          # the body is verified against this contract, but call sites keep inlining the body (constructors)
 
     @property
